@@ -281,6 +281,20 @@ func main() {
 	}
 	check := func(c *mc.Ctx, g orb.Geometry) {
 		desc := fmt.Sprintf("%T %v", g, g)
+		// the feature encoder writes its geometry member the way the geometry encoder writes the geometry alone
+		if fv, p := try(func() interface{} { b, err := geojson.NewFeature(orb.Clone(g)).MarshalJSON(); return []interface{}{string(b), err} }); p == "" {
+			gv, gp := try(func() interface{} { b, err := geojson.NewGeometry(orb.Clone(g)).MarshalJSON(); return []interface{}{string(b), err} })
+			fb, ferr := fv.([]interface{})[0].(string), fv.([]interface{})[1]
+			if gp == "" && ferr == nil && gv.([]interface{})[1] == nil {
+				var doc struct {
+					Geometry json.RawMessage `json:"geometry"`
+				}
+				var a, b interface{}
+				if json.Unmarshal([]byte(fb), &doc) != nil || json.Unmarshal(doc.Geometry, &a) != nil || json.Unmarshal([]byte(gv.([]interface{})[0].(string)), &b) != nil || !reflect.DeepEqual(a, b) {
+					c.Failf("typed-vs-generic", "the feature encoder writes the geometry of %s as %s, the geometry encoder writes %s", desc, doc.Geometry, gv.([]interface{})[0])
+				}
+			}
+		}
 		for _, e := range reg {
 			arg := orb.Clone(g)
 			if arg == nil {
